@@ -68,8 +68,11 @@ structure Arm where
   next : Next
   deriving DecidableEq, Repr, Inhabited
 
-/-- A state function: statements before the `switch`, the arms in source order, the default arm. -/
+/-- A state function: `if <labels> { …; return … }` statements at the very top (`early`, tried in
+    source order before anything else runs), the statements before the `switch` (`pre`), the arms
+    in source order, the default arm. -/
 structure StateFn where
+  early : List Arm := []
   pre : List Act
   arms : List Arm
   dflt : Arm
@@ -97,11 +100,21 @@ def findArm : List Arm → Arm → Inp → Arm
 
 def StateFn.arm (f : StateFn) (i : Inp) : Arm := findArm f.arms f.dflt i
 
-/-- All the statements executed for input `i` and the returned `Next`. An early
-    `return` inside an arm is kept as the `retIfIgnoreST` action. -/
+/-- First `if <labels> { … return … }` at the top of the function whose condition holds. -/
+def findEarly : List Arm → Inp → Option Arm
+  | [], _ => none
+  | a :: rest, i => if a.fires i then some a else findEarly rest i
+
+/-- All the statements executed for input `i` and the returned `Next`: the body of the first early
+    `if` that fires (the prologue — e.g. a `defer` — is then never reached), else the prologue
+    followed by the arm of the `switch`.  An early `return` inside an arm is kept as the
+    `retIfIgnoreST` action. -/
 def StateFn.row (f : StateFn) (i : Inp) : List Act × Next :=
-  let a := f.arm i
-  (f.pre ++ a.acts, a.next)
+  match findEarly f.early i with
+  | some a => (a.acts, a.next)
+  | none =>
+    let a := f.arm i
+    (f.pre ++ a.acts, a.next)
 
 /-! ### Interval classes: a row depends on the rune only through comparisons with the guard
 constants, so it is constant on any interval that contains no boundary. -/
@@ -112,7 +125,7 @@ def Guard.bounds : Guard → List Nat
   | .isEof => []
 
 def Arm.bounds (a : Arm) : List Nat := a.guards.flatMap Guard.bounds
-def StateFn.bounds (f : StateFn) : List Nat := f.arms.flatMap Arm.bounds
+def StateFn.bounds (f : StateFn) : List Nat := f.early.flatMap Arm.bounds ++ f.arms.flatMap Arm.bounds
 
 /-- No boundary `b` with `a < b ≤ hi` (so `[a, hi]` lies inside one class). -/
 def clear (bs : List Nat) (a hi : Nat) : Bool := bs.all fun b => decide (b ≤ a) || decide (hi < b)
@@ -161,26 +174,41 @@ theorem findArm_const (arms : List Arm) (d : Arm) (a r : Nat)
     rw [Arm.fires_const m a r (fun b hb => h b (by simp [hb])) har,
         ih (fun b hb => h b (by simp only [List.flatMap_cons, List.mem_append]; exact Or.inr hb))]
 
+theorem findEarly_const (arms : List Arm) (a r : Nat)
+    (h : ∀ b ∈ arms.flatMap Arm.bounds, b ≤ a ∨ r < b) (har : a ≤ r) :
+    findEarly arms (.rune r) = findEarly arms (.rune a) := by
+  induction arms with
+  | nil => rfl
+  | cons m rest ih =>
+    simp only [findEarly]
+    rw [Arm.fires_const m a r (fun b hb => h b (by simp [hb])) har,
+        ih (fun b hb => h b (by simp only [List.flatMap_cons, List.mem_append]; exact Or.inr hb))]
+
+theorem StateFn.row_const_of (f : StateFn) (a r : Nat) (h : ∀ b ∈ f.bounds, b ≤ a ∨ r < b) (har : a ≤ r) :
+    f.row (.rune r) = f.row (.rune a) := by
+  unfold StateFn.row StateFn.arm
+  have h1 : ∀ b ∈ f.early.flatMap Arm.bounds, b ≤ a ∨ r < b := fun b hb =>
+    h b (by simp only [StateFn.bounds, List.mem_append]; exact Or.inl hb)
+  have h2 : ∀ b ∈ f.arms.flatMap Arm.bounds, b ≤ a ∨ r < b := fun b hb =>
+    h b (by simp only [StateFn.bounds, List.mem_append]; exact Or.inr hb)
+  rw [findEarly_const f.early a r h1 har, findArm_const f.arms f.dflt a r h2 har]
+
 /-- A state function's row is constant on `[a, hi]` when no boundary falls in `(a, hi]`. -/
 theorem StateFn.row_const (f : StateFn) (a hi r : Nat) (hc : clear f.bounds a hi = true)
     (har : a ≤ r) (hr : r ≤ hi) : f.row (.rune r) = f.row (.rune a) := by
-  unfold StateFn.row StateFn.arm
-  have : ∀ b ∈ f.arms.flatMap Arm.bounds, b ≤ a ∨ r < b := by
-    intro b hb
-    have := (List.all_eq_true.mp hc) b hb
-    simp only [Bool.or_eq_true, decide_eq_true_eq] at this
-    omega
-  rw [findArm_const f.arms f.dflt a r this har]
+  apply StateFn.row_const_of f a r _ har
+  intro b hb
+  have := (List.all_eq_true.mp hc) b hb
+  simp only [Bool.or_eq_true, decide_eq_true_eq] at this
+  omega
 
 /-- … and constant on `[a, ∞)` when no boundary lies above `a`. -/
 theorem StateFn.row_const_above (f : StateFn) (a r : Nat) (hc : clearAbove f.bounds a = true)
     (har : a ≤ r) : f.row (.rune r) = f.row (.rune a) := by
-  unfold StateFn.row StateFn.arm
-  have : ∀ b ∈ f.arms.flatMap Arm.bounds, b ≤ a ∨ r < b := by
-    intro b hb
-    have := (List.all_eq_true.mp hc) b hb
-    simp only [decide_eq_true_eq] at this
-    omega
-  rw [findArm_const f.arms f.dflt a r this har]
+  apply StateFn.row_const_of f a r _ har
+  intro b hb
+  have := (List.all_eq_true.mp hc) b hb
+  simp only [decide_eq_true_eq] at this
+  omega
 
 end VaxisModel.Model.ParserTable
